@@ -34,7 +34,7 @@ func genPrim(r *rand.Rand) V {
 }
 
 func genRTCond(r *rand.Rand, depth int) V {
-	op := []string{"c1", "c2", "c3", "c4", "c5", "c6", fmt.Sprintf("u1:%s:%s", hx("~="), hx("approx"))}[r.Intn(7)]
+	op := []string{"c1", "c2", "c3", "c4", "c5", "c6", fmt.Sprintf("u1:%s:%s", hx("~="), hx("approx")), "-"}[r.Intn(8)] // "-": built step by step, never given an operator
 	var ex V
 	switch {
 	case depth > 0 && r.Intn(3) == 0:
@@ -166,7 +166,8 @@ func genAnyEntry(r *rand.Rand, depth int) V {
 	case 5:
 		return V{T: 'O', Op: []string{"c1", "c6", "c0", "c9", fmt.Sprintf("u1:%s:%s", hx("~="), hx("approx")), fmt.Sprintf("u2:%s:%s", hx(""), hx("c")), "-", "z", "y", "w"}[r.Intn(10)]}
 	case 6:
-		return V{T: 'o', Ty: 5, ID: 1}
+		// typed nil pointer; pointers to zero-valued native instances; pointers to nil pointers
+		return []V{{T: 'o', Ty: 5, ID: 1}, {T: 'o', Ty: 22, ID: 1}, {T: 'o', Ty: 23, ID: 1}, {T: 'o', Ty: 24, ID: 1}, {T: 'o', Ty: 25, ID: 1}, {T: 'o', Ty: 26, ID: 1}, {T: 'o', Ty: 20, ID: 3}}[r.Intn(7)]
 	case 7:
 		return V{T: 'K', Form: []string{"n", "a", "p"}[r.Intn(3)], Cfg: Cfg{Kind: kinds(r)}, Xs: []V{{T: 'i', I: 1}}}
 	case 8:
